@@ -221,10 +221,10 @@ func genFragmentation(ctx *Ctx, emit func(Case)) {
 			}})
 	}
 	// (d) the plaintext bufferers of the three encoder streams: any split = one shot; bounded buffer
-	splits := [][]int{{0}, {1}, {mib}, {mib + 1}, {mib - 1, 1}, {mib - 1, 1, 1}, {mib, 0, 1}, {1, mib}, {13, mib + 1}, {mib - 1, mib + 2}, {5, 2*mib + 5, 3},
+	splits := [][]int{{0}, {1}, {mib}, {mib + 1}, {mib - 1, 1}, {mib, 0}, {mib / 2, mib / 2, 0, 0}, {mib, 0, 1}, {1, mib}, {13, mib + 1}, {mib - 1, mib + 2}, {5, 2*mib + 5, 3}, {mib - 1, 1, 1},
 		{0, 0, mib, 0, mib, 0}, {2*mib + 1}, {mib / 2, mib / 2, mib / 2, mib / 2, 1}, {3 * mib}, {1, 3 * mib}, {mib + 1, mib - 1, 1}}
 	if ctx.Quick {
-		splits = splits[:11]
+		splits = splits[:12]
 	}
 	// random splits: a few pending bytes, then writes around multiples of the block size
 	for k := 0; k < ctx.N(3, 12); k++ {
@@ -464,8 +464,10 @@ func genFaults(ctx *Ctx, emit func(Case)) {
 		if !ctx.Quick && !strings.Contains(name, "armor") {
 			ptLen = mib + 50
 		}
-		if strings.Contains(name, "armor") && !ctx.Quick {
-			ptLen = 3000
+		if strings.Contains(name, "armor") {
+			// more than two armor lines (200 words of 15 characters each): a line
+			// is completed in the middle of a single Write of the armor encoder
+			ptLen = ctx.N(5000, 9000)
 		}
 		pt := r.Bytes(ptLen)
 		run := func(failAt int, sticky bool) (anyErr bool, w *faultWriter) {
@@ -556,10 +558,62 @@ func genFaults(ctx *Ctx, emit func(Case)) {
 	for _, f := range fams {
 		for _, g := range f.msgs {
 			line := f.openLine(g.msg)
+			// the classify-and-decrypt convenience entry point, binary and armored
+			if f.mode == "enc" || f.mode == "sc" {
+				for _, armored := range []bool{false, true} {
+					src := g.msg
+					if armored {
+						a, err := saltpack.Armor62Seal(g.msg, saltpack.MessageTypeEncryption, "")
+						if err != nil {
+							continue
+						}
+						src = []byte(a)
+					}
+					step := ctx.N(7, 1)
+					if armored {
+						step = ctx.N(11, 2)
+					}
+					for k := 0; k < len(src); k += step {
+						for _, kind := range []string{"alone", "withdata", "alone-transient"} {
+							k, kind, armored := k, kind, armored
+							ring, res := f.ringAndResolver()
+							if ring == nil {
+								continue
+							}
+							fr := &faultingReader{b: src, spec: faultSpec{at: k, withData: kind == "withdata", transient: kind == "alone-transient"}}
+							var rel []byte
+							var err error
+							func() {
+								defer func() {
+									if x := recover(); x != nil {
+										err = fmt.Errorf("panic: %v", x)
+									}
+								}()
+								var plain io.Reader
+								plain, _, _, _, _, _, _, err = saltpack.ClassifyEncryptedStreamAndMakeDecoder(fr, ring, res)
+								if err == nil {
+									rel, err = readAllCollect(plain, 4096)
+								}
+							}()
+							emit(Case{Stream: "fault.read.dispatch", Line: fmt.Sprintf("noop fault.dispatch %s armored=%v k=%d %s", f.mode, armored, k, kind), GoOut: "bad-op",
+								Branch: fmt.Sprintf("%s/armored=%v/%s/err=%v", f.mode, armored, kind, err != nil),
+								Direct: func() string {
+									if fr.hit && err == nil {
+										return fmt.Sprintf("the underlying reader returned an error (%s, at offset %d of %d, armored=%v) but ClassifyEncryptedStreamAndMakeDecoder and the stream it returned ended cleanly (%d bytes released): mode=%s message=%s", kind, k, len(src), armored, len(rel), f.mode, trunc(keys.Hex(g.msg), 600))
+									}
+									if !bytes.HasPrefix(g.pt, rel) {
+										return fmt.Sprintf("after a reader fault at offset %d classify-and-decrypt released bytes that are not a prefix of the plaintext", k)
+									}
+									return ""
+								}})
+						}
+					}
+				}
+			}
 			for k := 0; k < len(g.msg); k += ctx.N(7, 1) {
-				for _, kind := range []string{"alone", "withdata"} {
+				for _, kind := range []string{"alone", "withdata", "alone-transient"} {
 					k, kind := k, kind
-					currentFault = &faultSpec{at: k, withData: kind == "withdata"}
+					currentFault = &faultSpec{at: k, withData: kind == "withdata", transient: kind == "alone-transient"}
 					out := goExec(line)
 					currentFault = nil
 					emit(Case{Stream: "fault.read.entrypoints", Line: fmt.Sprintf("noop fault.read %s k=%d %s", f.mode, k, kind), GoOut: "bad-op",
@@ -580,8 +634,9 @@ func genFaults(ctx *Ctx, emit func(Case)) {
 }
 
 type faultSpec struct {
-	at       int
-	withData bool
+	at        int
+	withData  bool
+	transient bool // the error is returned once; afterwards the reader works again
 }
 
 var currentFault *faultSpec
@@ -594,13 +649,13 @@ type faultingReader struct {
 }
 
 func (f *faultingReader) Read(p []byte) (int, error) {
-	if f.hit {
+	if f.hit && !f.spec.transient {
 		return 0, script.ErrIO // sticky
 	}
 	if len(p) == 0 {
 		return 0, nil
 	}
-	if f.off >= f.spec.at {
+	if f.off >= f.spec.at && !f.hit {
 		f.hit = true
 		if f.spec.withData && f.off < len(f.b) {
 			p[0] = f.b[f.off]
@@ -613,7 +668,7 @@ func (f *faultingReader) Read(p []byte) (int, error) {
 	if n > 13 {
 		n = 13
 	}
-	if f.off+n > f.spec.at {
+	if !f.hit && f.off+n > f.spec.at {
 		n = f.spec.at - f.off
 	}
 	if f.off+n > len(f.b) {
@@ -641,4 +696,20 @@ func init() {
 		append([]string{"go-codec's reading of an io.Reader (fragmentation independence of the binary entry points is differential only)"}, commonTrusted...))
 	reg("C14", func(ctx *Ctx, emit func(Case)) { genFaults(ctx, emit) },
 		[]string{"go-codec propagates writer and reader errors (validated by fault injection at every call, not proved)"}, commonTrusted)
+}
+
+// ringAndResolver: the keyring (and resolver) a family's open request names,
+// recovered from its request line.
+func (f *family) ringAndResolver() (*keys.Ring, saltpack.SymmetricKeyResolver) {
+	if f.openLine == nil {
+		return nil, nil
+	}
+	t := strings.Fields(f.openLine([]byte{0}))
+	switch {
+	case len(t) >= 8 && t[0] == "enc.open":
+		return parseRing(t[2], t[3], t[4], t[5], t[6], nil), nil
+	case len(t) >= 8 && t[0] == "sc.open":
+		return parseRing(t[1], t[2], t[3], t[4], t[5], nil), parseResolver(t[6])
+	}
+	return nil, nil
 }
